@@ -227,7 +227,7 @@ def emit_c(items, plain):
 def build_and_run(cc, opt):
     os.makedirs(OUT, exist_ok=True)
     items, plain, skipped = gen()
-    src = os.path.join(OUT, "hdrclient.c"); open(src, "w").write(emit_c(items, plain))
+    src = os.path.join(OUT, f"hdrclient-{cc}-{opt}.c"); open(src, "w").write(emit_c(items, plain))      # one source per configuration: the tasks run side by side
     lib = vbuild.build("prod"); libd = os.path.dirname(lib)
     exe = os.path.join(OUT, f"hc-{cc}-{opt}")
     cmd = [cc, "-" + opt, "-w", "-I" + os.path.join(vbuild.REPO, "include"), "-I" + vbuild.REPO, src, "-o", exe, "-L" + libd, "-lsafec", "-Wl,-rpath," + libd]
